@@ -1,7 +1,7 @@
 """Shared views of the incremental parser (connection.rs) for several properties."""
 from ..core import AnalysisError, subterms, term_s
 from ..paths import PathEnum
-from .util import const_of, is_call, last_seg, look, norm, option_is_some, truth
+from .util import payload_of, const_of, is_call, last_seg, look, norm, option_is_some, truth
 
 HC = "connection::HttpConnection"
 P = "connection::HttpConnection::<T>::"
@@ -57,7 +57,7 @@ def find_outcome(lf, needle=b"\r\n"):
             elif s is True and out is None:
                 out = "some"
         x = look(t)
-        if x[0] == "field" and x[1][0] == "downcast" and x[1][2] == "Some" and is_find_crlf(x[1][1], needle):
+        if payload_of(x) is not None and x[0] != "bin" and is_find_crlf(payload_of(x), needle):
             if c == ("eq", 0):
                 out = "some0"
             elif c[0] == "ne" and 0 in c[1]:
